@@ -250,4 +250,88 @@ theorem at_node_linear (tg pg : List ℝ) (tab : List (List ℝ)) (i j : Nat)
     · rw [(interpLin_at _ _ _ _ _ t3).2 (by rw [e]), (interpLin_at _ _ _ _ _ t3).2 (by rw [e]),
         (interpLin_at _ _ _ _ _ p3).2 (by rw [e']), e, e']
 
+theorem interpExp_at (x11 x12 v a b : ℝ) (h1 : 0 < x11) (h2 : 0 < x12) (ha : 0 < a) (hab : a < b) :
+    (v = a → interpExp x11 x12 v a b = x11) ∧ (v = b → interpExp x11 x12 v a b = x12) :=
+  ⟨fun e => by rw [e]; exact interpExp_left _ _ _ _, fun e => by rw [e]; exact interpExp_right _ _ _ _ h1 h2 ha hab⟩
+
+/-- **at_node (exp mode)**: at every grid node the tabulated value is returned (positive table, positive
+    grid temperatures). -/
+theorem at_node_exp (tg pg : List ℝ) (tab : List (List ℝ)) (i j : Nat)
+    (hT : Sorted tg) (hP : Sorted pg) (hnT : 2 ≤ tg.length) (hnP : 2 ≤ pg.length)
+    (hpos : TabPos tab) (hT0pos : 0 < tg.getD 0 0)
+    (hi : i < pg.length) (hj : j < tg.length) :
+    bilinearGrid .exp tg pg tab (tg.getD j 0) (pg.getD i 0) = at2 tab i j := by
+  have hTl : ∀ v, 0 < tg.getD (findClosestPair tg v).1 0 := fun v =>
+    lt_of_lt_of_le hT0pos (sorted_getD_le hT (Nat.zero_le _) (by have := pair_adjacent tg v hnT; omega))
+  by_cases hjl : j = tg.length - 1 <;> by_cases hil : i = pg.length - 1
+  · subst hjl; subst hil
+    simp only [bilinearGrid, le_refl, decide_true, Bool.and_self, if_true]
+  · subst hjl
+    obtain ⟨p1, p2, p3, p4⟩ := node_pair pg hP i hnP (by omega)
+    simp only [bilinearGrid, le_refl, p1, p2, decide_true, decide_false, Bool.and_true, Bool.false_and, if_true,
+      if_false, Bool.false_eq_true, interpPressOnly]
+    obtain ⟨l, r⟩ := interpLin_at (at2 tab (findClosestPair pg (pg.getD i 0)).1 (tg.length - 1))
+      (at2 tab (findClosestPair pg (pg.getD i 0)).2 (tg.length - 1)) (pg.getD i 0) _ _ p3
+    rcases p4 with e | e
+    · rw [l (by rw [e])]; rw [e]
+    · rw [r (by rw [e])]; rw [e]
+  · subst hil
+    obtain ⟨t1, t2, t3, t4⟩ := node_pair tg hT j hnT (by omega)
+    simp only [bilinearGrid, le_refl, t1, t2, decide_true, decide_false, Bool.and_false, if_true,
+      if_false, Bool.false_eq_true, interpTempOnly]
+    obtain ⟨l, r⟩ := interpExp_at (at2 tab (pg.length - 1) (findClosestPair tg (tg.getD j 0)).1)
+      (at2 tab (pg.length - 1) (findClosestPair tg (tg.getD j 0)).2) (tg.getD j 0) _ _ (hpos _ _) (hpos _ _)
+      (hTl _) t3
+    rcases t4 with e | e
+    · rw [l (by rw [e])]; rw [e]
+    · rw [r (by rw [e])]; rw [e]
+  · obtain ⟨t1, t2, t3, t4⟩ := node_pair tg hT j hnT (by omega)
+    obtain ⟨p1, p2, p3, p4⟩ := node_pair pg hP i hnP (by omega)
+    simp only [bilinearGrid, t1, t2, p1, p2, decide_false, if_false,
+      Bool.false_eq_true, Bool.and_self]
+    rw [interpExpLin_nested _ _ _ _ _ _ _ _ _ _ p3]
+    rcases p4 with e' | e'
+    · rw [(interpLin_at _ _ _ _ _ p3).1 (by rw [e']), (interpLin_at _ _ _ _ _ p3).1 (by rw [e'])]
+      rcases t4 with e | e
+      · rw [(interpExp_at _ _ _ _ _ (hpos _ _) (hpos _ _) (hTl _) t3).1 (by rw [e]), e, e']
+      · rw [(interpExp_at _ _ _ _ _ (hpos _ _) (hpos _ _) (hTl _) t3).2 (by rw [e]), e, e']
+    · rw [(interpLin_at _ _ _ _ _ p3).2 (by rw [e']), (interpLin_at _ _ _ _ _ p3).2 (by rw [e'])]
+      rcases t4 with e | e
+      · rw [(interpExp_at _ _ _ _ _ (hpos _ _) (hpos _ _) (hTl _) t3).1 (by rw [e]), e, e']
+      · rw [(interpExp_at _ _ _ _ _ (hpos _ _) (hpos _ _) (hTl _) t3).2 (by rw [e]), e, e']
+
+/-- **interior (linear mode)**: strictly inside the grid the result is the textbook bilinear interpolation in
+    (T, log10 P) between the four nodes of the cell. -/
+theorem interior_bilinear (tg pg : List ℝ) (tab : List (List ℝ)) (t p : ℝ)
+    (h1 : ¬ pg.getD (pg.length - 1) 0 ≤ p) (h2 : ¬ tg.getD (tg.length - 1) 0 ≤ t)
+    (h3 : ¬ p < pg.getD 0 0) (h4 : ¬ t < tg.getD 0 0) :
+    let tl := (findClosestPair tg t).1; let tr := (findClosestPair tg t).2
+    let pl := (findClosestPair pg p).1; let pr := (findClosestPair pg p).2
+    let s := (p - pg.getD pl 0) / (pg.getD pr 0 - pg.getD pl 0)
+    let u := (t - tg.getD tl 0) / (tg.getD tr 0 - tg.getD tl 0)
+    bilinearGrid .linear tg pg tab t p
+      = (1 - s) * (1 - u) * at2 tab pl tl + (1 - s) * u * at2 tab pl tr
+        + s * (1 - u) * at2 tab pr tl + s * u * at2 tab pr tr := by
+  simp only [bilinearGrid, h1, h2, h3, h4, decide_false, if_false, Bool.false_eq_true, Bool.and_self, interpBilin]
+  ring
+
+/-- **interior (exp mode)**: strictly inside the grid the result is the documented form: linear in log10 P on both
+    temperature nodes, then the weighted geometric mean `a^(1-λ) · b^λ` with `λ = Tmax (T - Tmin) / (T (Tmax - Tmin))`,
+    i.e. `log σ` linear in `1/T`. -/
+theorem interior_explin (tg pg : List ℝ) (tab : List (List ℝ)) (t p : ℝ)
+    (hP : Sorted pg) (hnP : 2 ≤ pg.length) (hpos : TabPos tab)
+    (h1 : ¬ pg.getD (pg.length - 1) 0 ≤ p) (h2 : ¬ tg.getD (tg.length - 1) 0 ≤ t)
+    (h3 : ¬ p < pg.getD 0 0) (h4 : ¬ t < tg.getD 0 0) :
+    let tl := (findClosestPair tg t).1; let tr := (findClosestPair tg t).2
+    let pl := (findClosestPair pg p).1; let pr := (findClosestPair pg p).2
+    let a := interpLin (at2 tab pl tl) (at2 tab pr tl) p (pg.getD pl 0) (pg.getD pr 0)
+    let b := interpLin (at2 tab pl tr) (at2 tab pr tr) p (pg.getD pl 0) (pg.getD pr 0)
+    let lam := tg.getD tr 0 * (t - tg.getD tl 0) / (t * (tg.getD tr 0 - tg.getD tl 0))
+    bilinearGrid .exp tg pg tab t p = Real.exp ((1 - lam) * Real.log a + lam * Real.log b) := by
+  obtain ⟨a', b', c'⟩ := bracket_facts pg hP p hnP h3 h1
+  simp only [bilinearGrid, h1, h2, h3, h4, decide_false, if_false, Bool.false_eq_true, Bool.and_self]
+  rw [interpExpLin_nested _ _ _ _ _ _ _ _ _ _ a']
+  exact interpExp_geo _ _ _ _ _ (interpLin_pos _ _ _ _ _ (hpos _ _) (hpos _ _) a' b' c')
+    (interpLin_pos _ _ _ _ _ (hpos _ _) (hpos _ _) a' b' c')
+
 end Taurex.C04
